@@ -23,7 +23,6 @@ from itertools import chain
 from itertools import repeat
 from typing import TYPE_CHECKING
 
-from pest.grammar import Group
 from pest.grammar import Optional
 from pest.grammar import Repeat
 from pest.grammar import RepeatExact
@@ -44,8 +43,6 @@ def unroll(expr: Expression, _rules: Mapping[str, Rule]) -> Expression:  # noqa:
     """Transform Rep{Once,Exact,Min,Max,MinMax} to Seq."""
     match expr:
         case RepeatOnce(expression=inner):
-            if isinstance(inner, Group):
-                return Sequence(inner.expression, Repeat(inner))
             return Sequence(inner, Repeat(inner))
         case RepeatExact(expression=inner, number=num):
             return Sequence(*repeat(inner, num))
